@@ -33,9 +33,13 @@ def jobs_for(tier):
     d = clean_dir(os.path.join(workdir("c14"), "e2e_src"))
     e2e = e2e_cases(d)
     if quick:
-        e2e = e2e[seed() % 4::4]
+        # value-argument heavy families are always kept (their declarations feed the boundary-value operators)
+        e2e = [c for i, c in enumerate(e2e) if i % 4 == seed() % 4 or "bounded_int" in c[0] or "_const" in c[0]]
     for name, p in e2e:
         jobs.append({"id": name, "kind": "cairo", "path": p, "mutants": 40 if quick else 400, "multi": 5 if quick else 60})
+    import bounded_sweep
+    for j in bounded_sweep.jobs(tier, area="c14"):
+        jobs.append({"id": j["id"], "kind": "cairo", "path": j["path"], "mutants": 30 if quick else 600, "multi": 5 if quick else 100})
     classes = sorted(glob.glob(os.path.join(REPO, "crates", "cairo-lang-starknet*", "test_data", "*.contract_class.json")))
     classes = [c for c in classes if ".compiled_" not in c]
     for p in classes:
